@@ -135,6 +135,7 @@ func (ab *AccessBarrier) doCleanup() {
 	defer iter.Close()
 
 	for iter.SeekFirst(); iter.Valid(); iter.Next() {
+		vyield(SiteCleanupIter)
 		node := iter.GetNode()
 		bs := (*BarrierSession)(node.Item())
 		if bs.seqno != ab.freeSeqno+1 {
@@ -142,7 +143,9 @@ func (ab *AccessBarrier) doCleanup() {
 		}
 
 		ab.freeSeqno++
+		vyield(SiteCleanupCallb)
 		ab.callb(bs.objectRef)
+		vyield(SiteCleanupDelete)
 		ab.freeq.DeleteNode(node, CompareBS, buf2, &ab.freeq.Stats)
 		ab.numFreed++
 	}
@@ -152,9 +155,12 @@ func (ab *AccessBarrier) doCleanup() {
 func (ab *AccessBarrier) Acquire() *BarrierSession {
 	if ab.active {
 	retry:
+		vyield(SiteAcqLoad)
 		bs := (*BarrierSession)(atomic.LoadPointer(&ab.session))
+		vyield(SiteAcqInc)
 		liveCount := atomic.AddInt32(bs.liveCount, 1)
 		if liveCount > barrierFlushOffset {
+			vyield(SiteAcqBackoff)
 			ab.Release(bs)
 			goto retry
 		}
@@ -168,6 +174,7 @@ func (ab *AccessBarrier) Acquire() *BarrierSession {
 // Release marks leaving of an accessor in the skiplist
 func (ab *AccessBarrier) Release(bs *BarrierSession) {
 	if ab.active {
+		vyield(SiteRelDec)
 		liveCount := atomic.AddInt32(bs.liveCount, -1)
 		if liveCount == barrierFlushOffset {
 			buf := ab.freeq.MakeBuf()
@@ -175,12 +182,16 @@ func (ab *AccessBarrier) Release(bs *BarrierSession) {
 
 			// Accessors which entered a closed barrier session steps down automatically
 			// But, they may try to close an already closed session.
+			vyield(SiteRelLatch)
 			if atomic.AddInt32(&bs.closed, 1) == 1 {
+				vyield(SiteRelInsert)
 				if !ab.freeq.Insert(unsafe.Pointer(bs), CompareBS, buf, &ab.freeq.Stats) {
 					panic("unable to insert barrier session into free list")
 				}
+				vyield(SiteRelTryLock)
 				if atomic.CompareAndSwapInt32(&ab.isDestructorRunning, 0, 1) {
 					ab.doCleanup()
+					vyield(SiteRelTryUnlock)
 					atomic.CompareAndSwapInt32(&ab.isDestructorRunning, 1, 0)
 				}
 			}
@@ -194,11 +205,14 @@ func (ab *AccessBarrier) Release(bs *BarrierSession) {
 // The caller should provide the destructor pointer for the new session.
 func (ab *AccessBarrier) FlushSession(ref unsafe.Pointer) {
 	if ab.active {
+		vlock(unsafe.Pointer(ab))
 		ab.Lock()
+		defer vunlock(unsafe.Pointer(ab))
 		defer ab.Unlock()
 
 		bsPtr := atomic.LoadPointer(&ab.session)
 		newBsPtr := unsafe.Pointer(newBarrierSession())
+		vyield(SiteFlushSwap)
 		atomic.CompareAndSwapPointer(&ab.session, bsPtr, newBsPtr)
 		bs := (*BarrierSession)(bsPtr)
 		bs.objectRef = ref
@@ -206,6 +220,7 @@ func (ab *AccessBarrier) FlushSession(ref unsafe.Pointer) {
 		bs.seqno = ab.activeSeqno
 		ab.numAllocated++
 
+		vyield(SiteFlushAdd)
 		atomic.AddInt32(bs.liveCount, barrierFlushOffset+1)
 		ab.Release(bs)
 	}
